@@ -573,4 +573,93 @@ example : ∀ s ∈ (runOps tables st0 [.setList .povm [], .setList .gate [some 
     WellFormed (runOps tables st0 [.setList .povm [], .setList .gate [some [1], none]]).2.lists s :=
   reachable_wellformed L0 st0.schedules st0 (by decide) _
 
+
+/-! ## executability on reachable states and for the tomography circuits -/
+
+/-- **C20.f' `reachable_executable`** — on every state an experiment can reach (successful construction followed by any
+history of succeeding or failing setter calls) every schedule it holds that ends in a POVM and refers to no `None` placeholder
+is executed by `calc_prob_dist`, with the exact ordered outcome shape. No well-formedness hypothesis is needed: it is the
+invariant `reachable_wellformed`. -/
+theorem reachable_executable (L : Lists) (ss : List Schedule) (st : ExpState) (h : construct tables L ss = .ok st)
+    (ops : List Op) (i : Nat) (ps : List (String × Int)) (outc : String × Int → List Nat)
+    (hi : (runOps tables st ops).2.schedules[i]? = some (.items (ps.map fun p => Item.mk p.1 p.2)))
+    (hlast : (ps.map (·.1)).getLast? = some "povm")
+    (hobj : ∀ p ∈ ps, objOf (runOps tables st ops).2.lists p = some (some (outc p))) :
+    calcProbDist (runOps tables st ops).2 (.int i) =
+      .ok (shapeOfRun ((ps.filter fun p => p.1 = "mprocess").map outc) ((ps.filter fun p => p.1 = "povm").map outc).flatten) := by
+  have hmem : Schedule.items (ps.map fun p => Item.mk p.1 p.2) ∈ (runOps tables st ops).2.schedules :=
+    List.mem_of_getElem? hi
+  obtain ⟨ps', h1, h2, h3⟩ := reachable_wellformed L ss st h ops _ hmem
+  have : ps = ps' := toSched_inj ps ps' h1
+  subst this
+  exact accepted_executable _ i ps outc hi h2 h3 hlast hobj
+
+
+/-- spec pins: the experiment a tomography object executes and the outcome shape of one of its schedules -/
+theorem substTrue_def (nS nP : Nat) (sh : List Nat) :
+    substTrue .qst nS nP sh = ⟨[some []], List.replicate nP (some [2]), [], []⟩ ∧
+    substTrue .povmt nS nP sh = ⟨List.replicate nS (some [2]), [some sh], [], []⟩ ∧
+    substTrue .qpt nS nP sh = ⟨List.replicate nS (some [2]), List.replicate nP (some [2]), [some []], []⟩ ∧
+    substTrue .qmpt nS nP sh = ⟨List.replicate nS (some [2]), List.replicate nP (some [2]), [], [some sh]⟩ := ⟨rfl, rfl, rfl, rfl⟩
+
+/-- **C20.f'' `tomo_accepted_executable`** — every schedule a tomography constructor accepted is executable once the `[None]`
+placeholder is replaced by the true object (what `generate_prob_dists_sequence` / the data generation do), for any numbers of
+tester states / POVMs and any outcome shape `sh` of the true object; the distribution has shape `[2]` (Qst, Qpt; two-outcome
+testers in the model), `[∏ sh]` (Povmt, flat) or `sh ++ [2]` (Qmpt). -/
+theorem tomo_accepted_executable (c : Cls) (nS nP : Nat) (ss : List Schedule) (sh : List Nat)
+    (h : tomoCtor tables c nS nP (.list ss) = .ok ss) (i : Nat) (hi : i < ss.length) :
+    calcProbDist ⟨substTrue c nS nP sh, ss⟩ (.int i) = .ok (tomoShape c sh) := by
+  have hidx : ¬ ¬ (0 ≤ (i : Int) ∧ (i : Int) < (ss.length : Int)) := by
+    intro h'; apply h'; constructor <;> omega
+  have hget : ss[i]? = some ss[i] := by simp [hi]
+  have hmem : ss[i] ∈ ss := List.getElem_mem hi
+  have e1 : pyIndex [some ([] : List Nat)] (0 : Int) = some (some []) := by simp [pyIndex]
+  have e2 : pyIndex [some sh] (0 : Int) = some (some sh) := by simp [pyIndex]
+  have e3 : ∀ j : Nat, j < nP → pyIndex (List.replicate nP (some [2])) (j : Int) = some (some [2]) :=
+    fun j hj => pyIndex_replicate nP j _ hj
+  have e4 : ∀ j : Nat, j < nS → pyIndex (List.replicate nS (some [2])) (j : Int) = some (some [2]) :=
+    fun j hj => pyIndex_replicate nS j _ hj
+  cases c with
+  | qst =>
+    have hL : substTrue .qst nS nP sh = ⟨[some []], List.replicate nP (some [2]), [], []⟩ := rfl
+    obtain ⟨j, hj, hs⟩ := (qst_accept_iff_shape nS nP ss).1 h _ hmem
+    have e0 := e3 j hj
+    simp only [calcProbDist, if_neg hidx, Int.toNat_natCast, hget, hs, hL, Item.mk, lookupTargets,
+      Lists.get?, e0, e1, e2, e3, e4, e0]
+    simp [qtOf, composeFrom, compose, tomoShape, prodNat, e0, e1, e2, e3]
+  | povmt =>
+    have hL : substTrue .povmt nS nP sh = ⟨List.replicate nS (some [2]), [some sh], [], []⟩ := rfl
+    obtain ⟨j, hj, hs⟩ := (povmt_accept_iff_shape nS nP ss).1 h _ hmem
+    have e0 := e4 j hj
+    simp only [calcProbDist, if_neg hidx, Int.toNat_natCast, hget, hs, hL, Item.mk, lookupTargets,
+      Lists.get?, e0, e1, e2, e3, e4, e0]
+    simp [qtOf, composeFrom, compose, tomoShape, prodNat, e0, e1, e2, e3]
+  | qpt =>
+    have hL : substTrue .qpt nS nP sh = ⟨List.replicate nS (some [2]), List.replicate nP (some [2]), [some []], []⟩ := rfl
+    obtain ⟨a, b, ha, hb, hs⟩ := (qpt_accept_iff_shape nS nP ss).1 h _ hmem
+    have e0 := e4 a ha
+    have e3 := e3 b hb
+    simp only [calcProbDist, if_neg hidx, Int.toNat_natCast, hget, hs, hL, Item.mk, lookupTargets,
+      Lists.get?, e0, e1, e2, e3, e4, e0]
+    simp [qtOf, composeFrom, compose, tomoShape, prodNat, e0, e1, e2, e3]
+  | qmpt =>
+    have hL : substTrue .qmpt nS nP sh = ⟨List.replicate nS (some [2]), List.replicate nP (some [2]), [], [some sh]⟩ := rfl
+    obtain ⟨a, b, ha, hb, hs⟩ := (qmpt_accept_iff_shape nS nP ss).1 h _ hmem
+    have e0 := e4 a ha
+    have e3 := e3 b hb
+    simp only [calcProbDist, if_neg hidx, Int.toNat_natCast, hget, hs, hL, Item.mk, lookupTargets,
+      Lists.get?, e0, e1, e2, e3, e4, e0]
+    simp [qtOf, composeFrom, compose, tomoShape, prodNat, e0, e1, e2, e3]
+
+example : calcProbDist ⟨substTrue .qmpt 2 2 [2, 3], allSchedules .qmpt 2 2⟩ (.int 3) = .ok [2, 3, 2] := by decide
+
+
+
+/-- `reachable_executable` instantiated: a constructed experiment after one failing and one succeeding setter call -/
+example : calcProbDist (runOps tables st0 [.setList .povm [], .setList .gate [some [1], none]]).2 (.int 0) = .ok [2, 3, 3] := by
+  have h := reachable_executable L0 st0.schedules st0 (by decide) [.setList .povm [], .setList .gate [some [1], none]] 0 ps0 outc0
+    (by decide) (by simp [ps0])
+    (by intro p hp; simp [ps0] at hp; rcases hp with rfl | rfl | rfl | rfl | rfl <;> decide)
+  simpa [ps0, outc0, objOf, L0, pyIndex, Lists.get?, shapeOfRun] using h
+
 end QM.C20
